@@ -4,7 +4,7 @@ package genbank
 
 // C03: GenBank write-then-read is the identity and writing is deterministic.
 //
-// verif:bound C03 structured records: locus name 4 symbolic characters, sequence of 3, 12 or 61 symbolic letters, linear/circular/neither, metadata fields one symbolic word each (DEFINITION optionally ~90 characters long, forcing the writer to wrap), 0..2 references with and without REMARK, the second one sparse (a single optional field present), 0..2 extra keyword blocks, 0..2 features with 0..2 (quick) / 0..3 (thorough) qualifiers (values 2 symbolic bytes over letters, digits and inner space, or empty), location cached as text or assembled as a structure, including one-base spans with partial markers; the last word before the DEFINITION wrap point is 2 symbolic printable characters
+// verif:bound C03 structured records: locus name 4 symbolic characters, sequence of 3, 12 or 61 symbolic letters, linear/circular/neither, metadata fields one symbolic word each (DEFINITION optionally ~90 characters long, forcing the writer to wrap), 0..2 references with and without REMARK, the second one sparse (a single optional field present), 0..2 extra keyword blocks, 0..2 features with 0..2 (quick) / 0..3 (thorough; 0..2 in the determinism clause) qualifiers (values 2 symbolic bytes over letters, digits and inner space, or empty), location cached as text or assembled as a structure, including one-base spans with partial markers; the last word before the DEFINITION wrap point is 2 symbolic printable characters
 // verif:bound C03 determinism: every iteration order of the qualifier maps and of the extra-keyword map is explored for two independent writes (exact for maps of <= 3 entries); natively the writes are repeated 50 times
 // verif:bound C03 parser-image clause: Parse(Build(Parse(t))) = Parse(t) for the C01 selftest record
 // verif:bound C03 outside the claim: sequences of 10^5 letters, 40 features, 8 qualifiers, metadata of 2000 characters, Write/Read file wrappers; the 'independent reader' is the layout checks of this harness (column facts), not a second full parser
@@ -36,7 +36,7 @@ func c03Punct() string {
 	return string(b)
 }
 
-func c03Record() poly.Sequence {
+func c03Record(maxQ int) poly.Sequence {
 	var x poly.Sequence
 	full := false // the axes are tied to a profile: 8 profiles (quick) / 24 (thorough)
 	prof := vChoice(vTier(8, 24))
@@ -115,9 +115,9 @@ func c03Record() poly.Sequence {
 			f.GbkLocationString = loc // cached location text
 		}
 		f.Attributes = map[string]string{}
-		nq := vChoice(vTier(3, 4))
+		nq := vChoice(maxQ + 1)
 		if i == 1 {
-			nq = 2 + prof%2*vTier(0, 1)
+			nq = 2 + prof%2*(maxQ-2)
 		}
 		keys := []string{"gene", "note", "product"}
 		for q := 0; q < nq; q++ {
@@ -177,7 +177,7 @@ func c03Same(x, y poly.Sequence, tag string) {
 }
 
 func Harness_C03_WriteRead() {
-	x := c03Record()
+	x := c03Record(vTier(2, 3))
 	var y poly.Sequence
 	var text []byte
 	panicked := vPanics(func() {
@@ -224,7 +224,7 @@ func Harness_C03_WriteRead() {
 }
 
 func Harness_C03_Deterministic() {
-	x := c03Record()
+	x := c03Record(2) // every iteration order of every map, twice: at most 2 qualifiers per feature in both tiers
 	vObserveMap(x.Meta.Other)
 	for i := range x.Features {
 		vObserveMap(x.Features[i].Attributes)
